@@ -14,6 +14,38 @@ import (
 
 type Locker = sync.Locker
 
+// Modelled lock state must not leak from one explored execution into the next
+// (package-level locks such as snaps._m outlive an execution, and an abandoned
+// execution can be cut while a thread waits for or holds a lock): every lock
+// used in active mode registers itself and is reset when the next execution
+// starts.
+var (
+	regMu   sync.Mutex
+	used    []func()
+	usedSet = map[any]bool{}
+)
+
+func register(key any, reset func()) {
+	regMu.Lock()
+	if !usedSet[key] {
+		usedSet[key] = true
+		used = append(used, reset)
+	}
+	regMu.Unlock()
+}
+
+func init() {
+	sched.OnRunStart = func() {
+		regMu.Lock()
+		for _, r := range used {
+			r()
+		}
+		used = nil
+		usedSet = map[any]bool{}
+		regMu.Unlock()
+	}
+}
+
 type Mutex struct {
 	m    sync.Mutex
 	held bool
@@ -24,6 +56,7 @@ func (m *Mutex) Lock() {
 		m.m.Lock()
 		return
 	}
+	register(m, func() { m.held = false })
 	sched.Point("lock", "", false)
 	sched.Block(func() bool { return m.held })
 	m.held = true
@@ -65,10 +98,13 @@ func (m *RWMutex) Lock() {
 		m.m.Lock()
 		return
 	}
+	register(m, func() { m.w, m.readers, m.wwait = false, 0, 0 })
 	sched.Point("wlock", "", false)
 	m.wwait++
-	sched.Block(func() bool { return m.w || m.readers > 0 })
-	m.wwait--
+	func() {
+		defer func() { m.wwait-- }() // also when the wait is abandoned
+		sched.Block(func() bool { return m.w || m.readers > 0 })
+	}()
 	m.w = true
 }
 
@@ -101,6 +137,7 @@ func (m *RWMutex) RLock() {
 		m.m.RLock()
 		return
 	}
+	register(m, func() { m.w, m.readers, m.wwait = false, 0, 0 })
 	sched.Point("rlock", "", false)
 	sched.Block(func() bool { return m.w || m.wwait > 0 })
 	m.readers++
